@@ -43,6 +43,15 @@ func init() {
 	gen.RegisterOp("c02", "e2e-f27", func(c *gen.Ctx, raw json.RawMessage) any {
 		return c02E2E(c, gen.Into[c02E2EIn](raw))
 	})
+	gen.RegisterOp("c02", "e2e-f31", func(c *gen.Ctx, raw json.RawMessage) any {
+		return c02E2E(c, gen.Into[c02E2EIn](raw))
+	})
+	gen.RegisterOp("c02", "populate", func(_ *gen.Ctx, raw json.RawMessage) any {
+		return c02Populate(gen.Into[c02PopIn](raw))
+	})
+	gen.RegisterOp("c02", "libexpected", func(_ *gen.Ctx, raw json.RawMessage) any {
+		return c02LibExpected(gen.Into[c02LibIn](raw))
+	})
 }
 
 // ---- abstract descriptions (mirrored by lean/ConfModel/Model/Echo.lean) ----
@@ -75,14 +84,28 @@ type c02TC struct {
 	// such field, which is exactly that claim
 	LaterDefs []c02LaterDef `json:"laterDefs,omitempty"`
 	FdFlag  bool     `json:"fdFlag"`
+	// Get: use_get_http_method.  Method: "" (service and method left to the runner), "explicit"
+	// (service and method given and equal to the defaults), "idempotent" (IdempotentUnary with an
+	// IdempotentUnaryRequest), "unimplemented" (Unimplemented with an UnimplementedRequest).
+	// Codec (1 proto, 2 json): the permutation's codec, which the generator reads for a GET case
+	// (ops expected / libexpected; in e2e runs every permutation carries its own).
+	// Explicit: an expected_response given in the suite (the generator must leave it alone).
+	// XFail: hint that the explicit expectation is wrong on purpose (only used to skip re-runs;
+	// the driver checks it against the model's prediction).
+	Get      bool       `json:"get,omitempty"`
+	Method   string     `json:"method,omitempty"`
+	Codec    int        `json:"codec,omitempty"`
+	Explicit *c02Result `json:"explicit,omitempty"`
+	XFail    bool       `json:"xfail,omitempty"`
 }
 type c02LaterDef struct {
 	At  int    `json:"at"` // index of the request message (>= 1)
 	Def c02Def `json:"def"`
 }
 type c02Info struct {
-	Hdrs []c02Hdr `json:"hdrs"`
-	Reqs []int    `json:"reqs"`
+	Hdrs  []c02Hdr `json:"hdrs"`
+	Reqs  []int    `json:"reqs"`
+	Query []c02Hdr `json:"query"` // connect_get_info.query_params ([] = no ConnectGetInfo or an empty one)
 }
 type c02Detail struct {
 	Other *int     `json:"other,omitempty"`
@@ -181,11 +204,27 @@ var c02StreamTypes = map[string]conformancev1.StreamType{
 	"fullDuplex":   conformancev1.StreamType_STREAM_TYPE_FULL_DUPLEX_BIDI_STREAM,
 }
 
+var c02DefaultMethods = map[string]string{
+	"unary": "Unary", "clientStream": "ClientStream", "serverStream": "ServerStream", "halfDuplex": "BidiStream", "fullDuplex": "BidiStream",
+}
+
+const c02ServiceName = "connectrpc.conformance.v1.ConformanceService"
+
 func c02TestCase(tc c02TC) *conformancev1.TestCase {
 	req := &conformancev1.ClientCompatRequest{
-		TestName:       tc.Name,
-		StreamType:     c02StreamTypes[tc.St],
-		RequestHeaders: c02Headers(tc.ReqHdrs),
+		TestName:         tc.Name,
+		StreamType:       c02StreamTypes[tc.St],
+		RequestHeaders:   c02Headers(tc.ReqHdrs),
+		UseGetHttpMethod: tc.Get,
+		Codec:            conformancev1.Codec(tc.Codec),
+	}
+	switch tc.Method {
+	case "explicit":
+		req.Service, req.Method = proto.String(c02ServiceName), proto.String(c02DefaultMethods[tc.St])
+	case "idempotent":
+		req.Service, req.Method = proto.String(c02ServiceName), proto.String("IdempotentUnary")
+	case "unimplemented":
+		req.Service, req.Method = proto.String(c02ServiceName), proto.String("Unimplemented")
 	}
 	later := map[int]c02Def{}
 	for _, ld := range tc.LaterDefs {
@@ -200,20 +239,29 @@ func c02TestCase(tc c02TC) *conformancev1.TestCase {
 			first = true
 			tc.Def = ld
 		}
-		switch tc.St {
-		case "unary":
+		switch {
+		case tc.Method == "unimplemented":
+			// no fields: neither a definition nor data
+			m = &conformancev1.UnimplementedRequest{}
+		case tc.Method == "idempotent":
+			r := &conformancev1.IdempotentUnaryRequest{RequestData: c02ReqData(id)}
+			if first {
+				r.ResponseDefinition = c02UnaryDef(tc.Def)
+			}
+			m = r
+		case tc.St == "unary":
 			r := &conformancev1.UnaryRequest{RequestData: c02ReqData(id)}
 			if first {
 				r.ResponseDefinition = c02UnaryDef(tc.Def)
 			}
 			m = r
-		case "clientStream":
+		case tc.St == "clientStream":
 			r := &conformancev1.ClientStreamRequest{RequestData: c02ReqData(id)}
 			if first {
 				r.ResponseDefinition = c02UnaryDef(tc.Def)
 			}
 			m = r
-		case "serverStream":
+		case tc.St == "serverStream":
 			r := &conformancev1.ServerStreamRequest{RequestData: c02ReqData(id)}
 			if first {
 				r.ResponseDefinition = c02StreamDef(tc.Def)
@@ -232,7 +280,59 @@ func c02TestCase(tc c02TC) *conformancev1.TestCase {
 		a, _ := anypb.New(m)
 		req.RequestMessages = append(req.RequestMessages, a)
 	}
-	return &conformancev1.TestCase{Request: req}
+	out := &conformancev1.TestCase{Request: req}
+	if tc.Explicit != nil {
+		out.ExpectedResponse = c02ResultProto(tc.Explicit, tc, req.RequestMessages)
+	}
+	return out
+}
+
+// c02ResultProto: an abstract result as a ClientResponseResult (explicit expected responses).  A
+// request id that is one of the test case's stands for that request message; any other id for a
+// UnaryRequest that was never sent.
+func c02ResultProto(r *c02Result, tc c02TC, msgs []*anypb.Any) *conformancev1.ClientResponseResult {
+	info := func(in *c02Info) *conformancev1.ConformancePayload_RequestInfo {
+		if in == nil {
+			return nil
+		}
+		ri := &conformancev1.ConformancePayload_RequestInfo{RequestHeaders: c02Headers(in.Hdrs)}
+		if len(in.Query) > 0 {
+			ri.ConnectGetInfo = &conformancev1.ConformancePayload_ConnectGetInfo{QueryParams: c02Headers(in.Query)}
+		}
+		for _, id := range in.Reqs {
+			var a *anypb.Any
+			for i, have := range tc.Reqs {
+				if have == id && i < len(msgs) {
+					a = msgs[i]
+					break
+				}
+			}
+			if a == nil {
+				a, _ = anypb.New(&conformancev1.UnaryRequest{RequestData: c02ReqData(id)})
+			}
+			ri.Requests = append(ri.Requests, a)
+		}
+		return ri
+	}
+	out := &conformancev1.ClientResponseResult{ResponseHeaders: c02Headers(r.Hdrs), ResponseTrailers: c02Headers(r.Trls)}
+	for _, p := range r.Payloads {
+		out.Payloads = append(out.Payloads, &conformancev1.ConformancePayload{Data: c02Unhex(p.Data), RequestInfo: info(p.Info)})
+	}
+	if r.Err != nil {
+		e := &conformancev1.Error{Code: conformancev1.Code(r.Err.Code), Message: r.Err.Msg}
+		for _, d := range r.Err.Details {
+			switch {
+			case d.Info != nil:
+				a, _ := anypb.New(info(d.Info))
+				e.Details = append(e.Details, a)
+			case d.Other != nil:
+				a, _ := anypb.New(&conformancev1.Header{Name: fmt.Sprintf("detail-%d", *d.Other), Value: []string{"v", fmt.Sprint(*d.Other)}})
+				e.Details = append(e.Details, a)
+			}
+		}
+		out.Error = e
+	}
+	return out
 }
 
 // ---- proto -> abstract ----
@@ -269,9 +369,9 @@ func c02InfoOut(ri *conformancev1.ConformancePayload_RequestInfo, ordered bool) 
 	}
 	out := &c02Info{Reqs: []int{}}
 	if ordered {
-		out.Hdrs = c02HdrsOutOrdered(ri.RequestHeaders)
+		out.Hdrs, out.Query = c02HdrsOutOrdered(ri.RequestHeaders), c02HdrsOutOrdered(ri.GetConnectGetInfo().GetQueryParams())
 	} else {
-		out.Hdrs = c02HdrsOut(ri.RequestHeaders)
+		out.Hdrs, out.Query = c02HdrsOut(ri.RequestHeaders), c02HdrsOut(ri.GetConnectGetInfo().GetQueryParams())
 	}
 	for _, a := range ri.Requests {
 		id := -1
@@ -341,12 +441,246 @@ func c02Expected(tc c02TC) c02ExpectedOut {
 	return c02ExpectedOut{Result: c02ResultOut(res, true)}
 }
 
+// ---- op: libexpected (what populateExpectedResponses leaves in the library) ----
+
+// c02LibIn: the two suites of an e2e run (V: every protocol; VG: reliesOnConnectGet, Connect only,
+// relevantCompressions GetComps), loaded with a config of the given features — no RPC is made.
+type c02LibIn struct {
+	Mode     string  `json:"mode"` // client | server | both (grpc peers as in the e2e op)
+	Versions []int   `json:"versions"`
+	Protos   []int   `json:"protocols"`
+	Codecs   []int   `json:"codecs"`
+	Comps    []int   `json:"compressions"`
+	Cases    []c02TC `json:"cases"`
+	GetCases []c02TC `json:"getCases,omitempty"`
+	GetComps []int   `json:"getComps,omitempty"`
+}
+type c02LibPerm struct {
+	Name     string     `json:"name"`
+	Case     int        `json:"case"`
+	G        bool       `json:"g,omitempty"`
+	Codec    int        `json:"codec"`
+	Get      bool       `json:"get,omitempty"`
+	Service  string     `json:"service"`
+	Method   string     `json:"method"`
+	Expected *c02Result `json:"expected"`
+}
+type c02LibOut struct {
+	Perms []c02LibPerm `json:"perms"`
+	Err   string       `json:"err,omitempty"`
+}
+
+// c02Suites: the suite files of a run and the config text
+func c02Suites(dir string, cases, getCases []c02TC, getComps []int, versions, protos, codecs, comps []int) (map[string][]byte, []string, string) {
+	for i := range cases {
+		cases[i].Name = fmt.Sprintf("t%d", i)
+		cases[i].Codec = 0
+	}
+	for i := range getCases {
+		getCases[i].Name = fmt.Sprintf("g%d", i)
+		getCases[i].Codec = 0
+	}
+	files := map[string][]byte{}
+	var testFiles []string
+	if len(cases) > 0 || len(getCases) == 0 {
+		suitePath := filepath.Join(dir, "suite.yaml")
+		files[suitePath] = c02SuiteJSON(cases, false, nil)
+		testFiles = append(testFiles, suitePath)
+	}
+	if len(getCases) > 0 {
+		suitePath := filepath.Join(dir, "suiteg.yaml")
+		files[suitePath] = c02SuiteJSON(getCases, true, getComps)
+		testFiles = append(testFiles, suitePath)
+	}
+	return files, testFiles, c02CfgYAMLGet(versions, protos, codecs, comps, len(getCases) > 0)
+}
+
+// the case a permutation belongs to: its simple name is t<i> (suite V) or g<i> (suite VG)
+func c02CaseOf(name string) (bool, int) {
+	last := name[strings.LastIndex(name, "/")+1:]
+	var idx int
+	if strings.HasPrefix(last, "g") {
+		fmt.Sscanf(last, "g%d", &idx)
+		return true, idx
+	}
+	fmt.Sscanf(last, "t%d", &idx)
+	return false, idx
+}
+
+func c02ModeOf(m string) (conformancev1.TestSuite_TestMode, bool, bool) {
+	switch m {
+	case "server", "grpcserver":
+		return conformancev1.TestSuite_TEST_MODE_SERVER, true, false
+	case "both":
+		return conformancev1.TestSuite_TEST_MODE_UNSPECIFIED, true, true
+	}
+	return conformancev1.TestSuite_TEST_MODE_CLIENT, false, true
+}
+
+func c02LibExpected(in c02LibIn) c02LibOut {
+	files, _, cfg := c02Suites("/lib", in.Cases, in.GetCases, in.GetComps, in.Versions, in.Protos, in.Codecs, in.Comps)
+	mode, clientGRPC, serverGRPC := c02ModeOf(in.Mode)
+	perms, err := cc.VerifC02LoadPerms(files, cfg, mode, clientGRPC, serverGRPC)
+	if err != nil {
+		return c02LibOut{Err: "error"}
+	}
+	out := c02LibOut{Perms: []c02LibPerm{}}
+	for _, p := range perms {
+		g, idx := c02CaseOf(p.Name)
+		out.Perms = append(out.Perms, c02LibPerm{Name: p.Name, Case: idx, G: g, Codec: int(p.Codec), Get: p.UseGet,
+			Service: p.Service, Method: p.Method, Expected: c02ResultOut(p.Expected, true)})
+	}
+	return out
+}
+
 // ---- op: load (suite loading never crashes) ----
 
 type c02LoadIn struct {
 	Suite string `json:"suite"` // YAML/JSON text of one suite file
 	Mode  string `json:"mode"`
 	Note  string `json:"note"`
+	// Shapes: instead of Suite, an abstract description of one suite per file (mirrored by
+	// lean/ConfModel/Model/EchoLoad.lean, which predicts whether the load is rejected)
+	Shapes []c02LSuite `json:"shapes,omitempty"`
+}
+
+// kinds of request messages: unary | idempotent | clientStream | serverStream | bidi (carry a
+// response definition and request_data) | unimplemented (UnimplementedRequest) | other (a Header)
+type c02LCase struct {
+	Name        string   `json:"name"`
+	St          int      `json:"st"` // stream_type enum number (0 unspecified, 1..5, other numbers unknown)
+	Service     bool     `json:"service"`
+	Method      bool     `json:"method"`
+	Msgs        []string `json:"msgs"`
+	RawRequest  bool     `json:"rawRequest"`
+	RawResponse bool     `json:"rawResponse"` // the first message's definition carries a raw response
+	Explicit    bool     `json:"explicit"`
+	Expand      []string `json:"expand"` // absent | fits | misfit
+}
+type c02LSuite struct {
+	Name        string     `json:"name"`
+	Mode        int        `json:"mode"`
+	Protos      []int      `json:"protos"` // relevantProtocols, without repetitions (a repeated value expands the suite twice)
+	Codecs      []int      `json:"codecs"`
+	Tls         bool       `json:"tls"`
+	Certs       bool       `json:"certs"`
+	Get         bool       `json:"get"`
+	Cvm         int        `json:"cvm"`
+	Cases       []c02LCase `json:"cases"`
+}
+
+func c02LMsg(kind string, first, raw bool, k int) *anypb.Any {
+	data := []byte{byte(k), 1, 2}
+	var udef *conformancev1.UnaryResponseDefinition
+	var sdef *conformancev1.StreamResponseDefinition
+	if first {
+		udef = &conformancev1.UnaryResponseDefinition{Response: &conformancev1.UnaryResponseDefinition_ResponseData{ResponseData: []byte("r")}}
+		sdef = &conformancev1.StreamResponseDefinition{ResponseData: [][]byte{[]byte("r")}}
+		if raw {
+			udef.RawResponse = &conformancev1.RawHTTPResponse{StatusCode: 200}
+			sdef.RawResponse = &conformancev1.RawHTTPResponse{StatusCode: 200}
+		}
+	}
+	var m proto.Message
+	switch kind {
+	case "unary":
+		m = &conformancev1.UnaryRequest{RequestData: data, ResponseDefinition: udef}
+	case "idempotent":
+		m = &conformancev1.IdempotentUnaryRequest{RequestData: data, ResponseDefinition: udef}
+	case "clientStream":
+		m = &conformancev1.ClientStreamRequest{RequestData: data, ResponseDefinition: udef}
+	case "serverStream":
+		m = &conformancev1.ServerStreamRequest{RequestData: data, ResponseDefinition: sdef}
+	case "bidi":
+		m = &conformancev1.BidiStreamRequest{RequestData: data, ResponseDefinition: sdef}
+	case "unimplemented":
+		m = &conformancev1.UnimplementedRequest{}
+	default:
+		m = &conformancev1.Header{Name: "x-not-a-request", Value: []string{"v"}}
+	}
+	a, _ := anypb.New(m)
+	return a
+}
+
+func c02LSuiteProto(sh c02LSuite) *conformancev1.TestSuite {
+	s := &conformancev1.TestSuite{Name: sh.Name, Mode: conformancev1.TestSuite_TestMode(sh.Mode), ReliesOnTls: sh.Tls,
+		ReliesOnTlsClientCerts: sh.Certs, ReliesOnConnectGet: sh.Get, ConnectVersionMode: conformancev1.TestSuite_ConnectVersionMode(sh.Cvm)}
+	for _, p := range sh.Protos {
+		s.RelevantProtocols = append(s.RelevantProtocols, conformancev1.Protocol(p))
+	}
+	for _, c := range sh.Codecs {
+		s.RelevantCodecs = append(s.RelevantCodecs, conformancev1.Codec(c))
+	}
+	for _, c := range sh.Cases {
+		req := &conformancev1.ClientCompatRequest{TestName: c.Name, StreamType: conformancev1.StreamType(c.St)}
+		if c.Service {
+			req.Service = proto.String(c02ServiceName)
+		}
+		if c.Method {
+			req.Method = proto.String("Unary")
+		}
+		for i, k := range c.Msgs {
+			req.RequestMessages = append(req.RequestMessages, c02LMsg(k, i == 0, c.RawResponse, i))
+		}
+		if c.RawRequest {
+			req.RawRequest = &conformancev1.RawHTTPRequest{Verb: "POST", Uri: "/x"}
+		}
+		tc := &conformancev1.TestCase{Request: req}
+		if c.Explicit {
+			tc.ExpectedResponse = &conformancev1.ClientResponseResult{Error: &conformancev1.Error{Code: conformancev1.Code_CODE_UNIMPLEMENTED}}
+		}
+		for _, d := range c.Expand {
+			switch d {
+			case "fits":
+				tc.ExpandRequests = append(tc.ExpandRequests, &conformancev1.TestCase_ExpandedSize{SizeRelativeToLimit: proto.Int32(int32(len(tc.ExpandRequests)) - 1)})
+			case "misfit":
+				// a single byte — less than removing all request data leaves —, or below zero altogether
+				v := int32(-204799)
+				if len(tc.ExpandRequests)%2 == 1 {
+					v = -204801
+				}
+				tc.ExpandRequests = append(tc.ExpandRequests, &conformancev1.TestCase_ExpandedSize{SizeRelativeToLimit: proto.Int32(v)})
+			default:
+				tc.ExpandRequests = append(tc.ExpandRequests, &conformancev1.TestCase_ExpandedSize{})
+			}
+		}
+		s.TestCases = append(s.TestCases, tc)
+	}
+	return s
+}
+
+// ---- op: populate (populateExpectedResponse on messages no suite file can contain) ----
+
+// c02PopIn: a test case built directly as a message: stream type by number, request messages by kind —
+// here also "unknown" (an Any of a type that is not registered) and "garbage" (bytes that are no
+// message of the named type), which JSON / YAML cannot express
+type c02PopIn struct {
+	St       int      `json:"st"`
+	Msgs     []string `json:"msgs"`
+	Explicit bool     `json:"explicit"`
+}
+
+func c02Populate(in c02PopIn) map[string]any {
+	req := &conformancev1.ClientCompatRequest{TestName: "p", StreamType: conformancev1.StreamType(in.St)}
+	for i, k := range in.Msgs {
+		switch k {
+		case "unknown":
+			req.RequestMessages = append(req.RequestMessages, &anypb.Any{TypeUrl: "type.googleapis.com/nope.Nope", Value: []byte{1, 2}})
+		case "garbage":
+			req.RequestMessages = append(req.RequestMessages, &anypb.Any{TypeUrl: "type.googleapis.com/connectrpc.conformance.v1.UnaryRequest", Value: []byte{0xff, 0xff, 0xff}})
+		default:
+			req.RequestMessages = append(req.RequestMessages, c02LMsg(k, i == 0, false, i))
+		}
+	}
+	tc := &conformancev1.TestCase{Request: req}
+	if in.Explicit {
+		tc.ExpectedResponse = &conformancev1.ClientResponseResult{}
+	}
+	res, err := cc.VerifC02PopulateExpected(tc)
+	if err != nil {
+		return map[string]any{"class": "error"}
+	}
+	return map[string]any{"class": "ok", "payloads": len(res.GetPayloads())}
 }
 
 func c02Load(in c02LoadIn) map[string]any {
@@ -357,7 +691,28 @@ func c02Load(in c02LoadIn) map[string]any {
 	case "server":
 		mode = conformancev1.TestSuite_TEST_MODE_SERVER
 	}
-	names, err := cc.VerifC02Load(map[string][]byte{"s.yaml": []byte(in.Suite)}, c02CfgYAML([]int{1, 2}, []int{1, 2, 3}, []int{1, 2}, []int{1}), mode, true, true)
+	files := map[string][]byte{"s.yaml": []byte(in.Suite)}
+	cfg := c02CfgYAML([]int{1, 2}, []int{1, 2, 3}, []int{1, 2}, []int{1})
+	if len(in.Shapes) > 0 {
+		// the configuration lean/ConfModel/Model/EchoLoad.lean `cfgApplies` speaks about
+		files, cfg = map[string][]byte{}, c02CfgYAMLGet([]int{1, 2}, []int{1, 2, 3}, []int{1, 2}, []int{1, 2}, true)
+		for i, sh := range in.Shapes {
+			b, err := protojson.Marshal(c02LSuiteProto(sh))
+			if err != nil {
+				return map[string]any{"class": "unmarshalable", "err": err.Error()}
+			}
+			files[fmt.Sprintf("s%d.yaml", i)] = b
+		}
+	}
+	names, err := cc.VerifC02Load(files, cfg, mode, true, true)
+	if len(in.Shapes) > 1 {
+		// the files are visited in map order: the verdict must not depend on it
+		for k := 0; k < 5; k++ {
+			if _, err2 := cc.VerifC02Load(files, cfg, mode, true, true); (err2 == nil) != (err == nil) {
+				return map[string]any{"class": "unstable"}
+			}
+		}
+	}
 	if err != nil {
 		return map[string]any{"class": "error"}
 	}
@@ -373,6 +728,12 @@ type c02E2EIn struct {
 	Codecs   []int   `json:"codecs"`
 	Comps    []int   `json:"compressions"`
 	Cases    []c02TC `json:"cases"`
+	// GetCases: a second suite "VG" in the same run: reliesOnConnectGet, relevantProtocols
+	// [PROTOCOL_CONNECT], every codec and compression of the config (which then declares
+	// supportsConnectGet: true); its cases are named g<i>
+	GetCases []c02TC `json:"getCases,omitempty"`
+	// GetComps: relevantCompressions of suite VG (empty: every compression of the config)
+	GetComps []int `json:"getComps,omitempty"`
 	NoRerun  bool    `json:"noRerun,omitempty"` // failing permutations are not re-run alone (ops whose failures are 20 s time-outs)
 	// Trace: the runner's --trace (Flags.HTTPTrace): the in-process reference peers run inside the
 	// HTTP tracing wrappers (tracer.TracingHandler around the reference server's checks,
@@ -382,6 +743,8 @@ type c02E2EIn struct {
 type c02PermOut struct {
 	Name    string     `json:"name"`
 	Case    int        `json:"case"`
+	G       bool       `json:"g,omitempty"`     // a case of suite VG (index into getCases)
+	Codec   int        `json:"codec,omitempty"` // the permutation's codec (1 proto, 2 json)
 	Verdict string     `json:"verdict"` // pass | fail
 	Why     string     `json:"why,omitempty"`
 	Actual  *c02Result `json:"actual"`
@@ -393,6 +756,10 @@ type c02E2EOut struct {
 }
 
 func c02CfgYAML(versions, protos, codecs, comps []int) string {
+	return c02CfgYAMLGet(versions, protos, codecs, comps, false)
+}
+
+func c02CfgYAMLGet(versions, protos, codecs, comps []int, get bool) string {
 	var b strings.Builder
 	b.WriteString("features:\n")
 	list := func(key string, vals []int, names map[int32]string) {
@@ -405,7 +772,8 @@ func c02CfgYAML(versions, protos, codecs, comps []int) string {
 	list("protocols", protos, conformancev1.Protocol_name)
 	list("codecs", codecs, conformancev1.Codec_name)
 	list("compressions", comps, conformancev1.Compression_name)
-	b.WriteString("  supportsTls: false\n  supportsHalfDuplexBidiOverHttp1: true\n  supportsConnectGet: false\n  supportsMessageReceiveLimit: false\n")
+	b.WriteString("  supportsTls: false\n  supportsHalfDuplexBidiOverHttp1: true\n  supportsMessageReceiveLimit: false\n")
+	fmt.Fprintf(&b, "  supportsConnectGet: %v\n", get)
 	return b.String()
 }
 
@@ -426,8 +794,14 @@ func (p *c02Printer) PrefixPrintf(prefix, msg string, args ...any) {
 
 var c02Seq atomic.Int64
 
-func c02SuiteJSON(cases []c02TC) []byte {
+func c02SuiteJSON(cases []c02TC, get bool, getComps []int) []byte {
 	suite := &conformancev1.TestSuite{Name: "V"}
+	if get {
+		suite = &conformancev1.TestSuite{Name: "VG", ReliesOnConnectGet: true, RelevantProtocols: []conformancev1.Protocol{conformancev1.Protocol_PROTOCOL_CONNECT}}
+		for _, z := range getComps {
+			suite.RelevantCompressions = append(suite.RelevantCompressions, conformancev1.Compression(z))
+		}
+	}
 	for _, tc := range cases {
 		suite.TestCases = append(suite.TestCases, c02TestCase(tc))
 	}
@@ -439,18 +813,15 @@ func c02E2E(c *gen.Ctx, in c02E2EIn) c02E2EOut {
 	dir := filepath.Join(c.WorkDir, fmt.Sprintf("c02-%d-%d", os.Getpid(), c02Seq.Add(1)))
 	os.MkdirAll(dir, 0o755)
 	defer os.RemoveAll(dir)
-	for i := range in.Cases {
-		in.Cases[i].Name = fmt.Sprintf("t%d", i)
-	}
-	suiteBytes := c02SuiteJSON(in.Cases)
-	suitePath := filepath.Join(dir, "suite.yaml")
-	cfg := c02CfgYAML(in.Versions, in.Protos, in.Codecs, in.Comps)
+	files, testFiles, cfg := c02Suites(dir, in.Cases, in.GetCases, in.GetComps, in.Versions, in.Protos, in.Codecs, in.Comps)
 	cfgPath := filepath.Join(dir, "cfg.yaml")
-	os.WriteFile(suitePath, suiteBytes, 0o644)
+	for path, data := range files {
+		os.WriteFile(path, data, 0o644)
+	}
 	os.WriteFile(cfgPath, []byte(cfg), 0o644)
 	capPath := filepath.Join(dir, "responses.bin")
 	self, _ := os.Executable()
-	flags := &cc.Flags{ConfigFile: cfgPath, TestFiles: []string{suitePath}, MaxServers: 4, Parallelism: 8, ServerBind: "127.0.0.1", HTTPTrace: in.Trace}
+	flags := &cc.Flags{ConfigFile: cfgPath, TestFiles: testFiles, MaxServers: 4, Parallelism: 8, ServerBind: "127.0.0.1", HTTPTrace: in.Trace}
 	mode := conformancev1.TestSuite_TEST_MODE_CLIENT
 	clientGRPC, serverGRPC := false, true
 	if in.Mode == "server" {
@@ -478,10 +849,18 @@ func c02E2E(c *gen.Ctx, in c02E2EIn) c02E2EOut {
 		flags.ClientCommand = []string{self, "c02peer", "refclient", capPath}
 	}
 	var out c02E2EOut
-	names, err := cc.VerifC02Load(map[string][]byte{suitePath: suiteBytes}, cfg, mode, clientGRPC, serverGRPC)
+	perms, err := cc.VerifC02LoadPerms(files, cfg, mode, clientGRPC, serverGRPC)
 	if err != nil {
 		out.RunErr = "load: " + err.Error()
 		return out
+	}
+	caseOf := c02CaseOf
+	xfail := func(name string) bool {
+		g, idx := caseOf(name)
+		if g {
+			return idx < len(in.GetCases) && in.GetCases[idx].XFail
+		}
+		return idx < len(in.Cases) && in.Cases[idx].XFail
 	}
 	parseFailed := func(log string) map[string]string {
 		// failures: "FAILED: <name>:\n\t<lines>"
@@ -539,14 +918,28 @@ func c02E2E(c *gen.Ctx, in c02E2EIn) c02E2EOut {
 	// grpc-web wrapper: "http: invalid Read on closed Body") are not failures of the property, which
 	// quantifies over inputs: re-run the failing permutations alone, twice; a permutation that
 	// passes in a re-run counts as passing (and is counted as transient).
-	for attempt := 0; attempt < 3 && !in.NoRerun && len(failed) > 0 && len(failed) <= 12 && strings.Contains(log, "Total cases:"); attempt++ {
+	unexpected := func() int {
+		n := 0
+		for name := range failed {
+			if !xfail(name) {
+				n++
+			}
+		}
+		return n
+	}
+	for attempt := 0; attempt < 3 && !in.NoRerun && unexpected() > 0 && unexpected() <= 12 && strings.Contains(log, "Total cases:"); attempt++ {
 		f2 := *flags
 		f2.Parallelism, f2.MaxServers = 1, 1
 		if len(f2.ClientCommand) > 0 {
 			f2.ClientCommand = append(append([]string{}, f2.ClientCommand...), "-p", "1")
 		}
 		for name := range failed {
-			f2.RunPatterns = append(f2.RunPatterns, name)
+			if !xfail(name) { // an expectation that is wrong on purpose fails every time
+				f2.RunPatterns = append(f2.RunPatterns, name)
+			}
+		}
+		if len(f2.RunPatterns) == 0 {
+			break
 		}
 		lp2 := &c02Printer{}
 		cc.Run(&f2, lp2, &c02Printer{})
@@ -557,6 +950,9 @@ func c02E2E(c *gen.Ctx, in c02E2EIn) c02E2EOut {
 		still := parseFailed(log2)
 		acts2, _ := readCap()
 		for name := range failed {
+			if xfail(name) {
+				continue
+			}
 			if _, bad := still[name]; !bad {
 				delete(failed, name)
 				c.E.Count("e2e-transient-failure")
@@ -570,11 +966,10 @@ func c02E2E(c *gen.Ctx, in c02E2EIn) c02E2EOut {
 		actuals[name] = a
 	}
 	ran := strings.Contains(log, "Total cases:")
-	for _, name := range names {
-		last := name[strings.LastIndex(name, "/")+1:]
-		var idx int
-		fmt.Sscanf(last, "t%d", &idx)
-		p := c02PermOut{Name: name, Case: idx, Verdict: "pass"}
+	for _, perm := range perms {
+		name := perm.Name
+		g, idx := caseOf(name)
+		p := c02PermOut{Name: name, Case: idx, G: g, Codec: int(perm.Codec), Verdict: "pass"}
 		if why, bad := failed[name]; bad {
 			p.Verdict, p.Why = "fail", why
 		} else if !ran {
@@ -752,6 +1147,114 @@ func c02GenTC(r *gen.Rand, st string, nReq, nResp int, withErr bool, bin bool) c
 
 var c02Sts = []string{"unary", "clientStream", "serverStream", "halfDuplex", "fullDuplex"}
 
+// c02WeakExplicit: an expected response as a suite author could write it by hand for a case whose
+// definition has no error: the payloads and the echoed requests, no metadata (response headers and
+// trailers and request headers are compared by subsumption, so leaving them out is allowed).  It
+// differs from the derived expectation whenever the case sets any header.  wrong: the same with a
+// discrepancy no leniency covers (other payload bytes, or an error where none is defined).
+func c02WeakExplicit(tc c02TC, wrong bool) *c02Result {
+	out := &c02Result{Hdrs: []c02Hdr{}, Trls: []c02Hdr{}, Payloads: []c02Payload{}}
+	info := func(reqs []int) *c02Info {
+		return &c02Info{Hdrs: []c02Hdr{}, Reqs: append([]int{}, reqs...), Query: []c02Hdr{}}
+	}
+	hasDef := tc.HasDef && len(tc.Reqs) > 0
+	switch tc.St {
+	case "unary", "clientStream":
+		data := ""
+		if hasDef && tc.Def.Kind == "data" && len(tc.Def.Data) > 0 {
+			data = tc.Def.Data[0]
+		}
+		out.Payloads = append(out.Payloads, c02Payload{Data: data, Info: info(tc.Reqs)})
+	default:
+		if hasDef {
+			for i, d := range tc.Def.Data {
+				p := c02Payload{Data: d}
+				switch {
+				case tc.St == "fullDuplex" && i < len(tc.Reqs):
+					p.Info = info(tc.Reqs[i : i+1])
+				case tc.St != "fullDuplex" && i == 0:
+					p.Info = info(tc.Reqs)
+				}
+				out.Payloads = append(out.Payloads, p)
+			}
+		}
+	}
+	if wrong {
+		if len(out.Payloads) > 0 {
+			out.Payloads[0].Data += "ff"
+		} else {
+			out.Err = &c02ErrOut{Code: 13, Details: []c02Detail{}}
+		}
+	}
+	return out
+}
+
+// c02Unimplemented: the Unimplemented method (unary, one UnimplementedRequest) with the expected
+// response the corpus gives for it (error code unimplemented) — or, wrong, another code
+func c02Unimplemented(r *gen.Rand, wrong bool) c02TC {
+	tc := c02TC{St: "unary", Method: "unimplemented", ReqHdrs: c02GenHdrs(r, "x-req", false), Reqs: []int{100 + r.Intn(50)},
+		Def: c02Def{Hdrs: []c02Hdr{}, Trls: []c02Hdr{}, Kind: "none", Data: []string{}}}
+	code := 12
+	if wrong {
+		code = gen.Pick(r, []int{2, 5, 13})
+		tc.XFail = true
+	}
+	tc.Explicit = &c02Result{Hdrs: []c02Hdr{}, Trls: []c02Hdr{}, Payloads: []c02Payload{}, Err: &c02ErrOut{Code: code, Details: []c02Detail{}}}
+	return tc
+}
+
+// c02Decorate: with some probability turn a generated case into one that names service and method
+// itself (the defaults), or that gives its expected response itself (right, or wrong on purpose)
+func c02Decorate(r *gen.Rand, tc c02TC) c02TC {
+	if r.Chance(1, 5) && tc.Method == "" {
+		tc.Method = "explicit"
+	}
+	noErr := tc.Def.Err == nil && tc.Def.Kind != "error"
+	if noErr && len(tc.LaterDefs) == 0 && r.Chance(1, 6) {
+		tc.XFail = r.Chance(1, 3)
+		tc.Explicit = c02WeakExplicit(tc, tc.XFail)
+	}
+	return tc
+}
+
+// c02GenGetTC: a case of suite VG (reliesOnConnectGet, Connect only): mostly IdempotentUnary with
+// use_get_http_method; also cases that do not use GET at all (any stream type — the config cases of
+// a GET-supporting implementation exist for every stream type), and the unimplemented method
+//
+// postGet: also a case that sets use_get_http_method on the plain Unary method, which every client
+// POSTs: the expectation lists query parameters, the response none, and the comparison is skipped
+// ("only when both sides list any") — not against the reference-mode reference server, which is told
+// to expect a GET request line.
+func c02GenGetTC(r *gen.Rand, bin bool, postGet bool) c02TC {
+	switch r.Intn(10) {
+	case 0:
+		return c02Decorate(r, c02RandomTC(r, bin, 1))
+	case 1:
+		return c02Unimplemented(r, false)
+	case 2:
+		if postGet {
+			tc := c02GenTC(r, "unary", 1, r.Intn(2), r.Chance(2, 5), bin)
+			tc.LaterDefs = nil
+			tc.Get = true
+			return tc
+		}
+	}
+	tc := c02GenTC(r, "unary", 1, r.Intn(2), r.Chance(2, 5), bin)
+	tc.LaterDefs = nil
+	tc.Method, tc.Get = "idempotent", true
+	if r.Chance(1, 8) {
+		tc.XFail = tc.Def.Err == nil && tc.Def.Kind != "error" && r.Bool()
+		if tc.Def.Err == nil && tc.Def.Kind != "error" {
+			tc.Explicit = c02WeakExplicit(tc, tc.XFail)
+			if !tc.XFail && r.Bool() {
+				// the author lists the query parameters too
+				tc.Explicit.Payloads[0].Info.Query = []c02Hdr{{N: "connect", V: []string{"v1"}}}
+			}
+		}
+	}
+	return tc
+}
+
 func c02RandomTC(r *gen.Rand, bin bool, minReq int) c02TC {
 	st := gen.Pick(r, c02Sts)
 	nReq := 1
@@ -796,9 +1299,98 @@ func runC02(c *gen.Ctx) error {
 		}
 		c.Do("expected", tc)
 	}
+	// everything below that did not exist before the Connect GET / unimplemented / explicit-expectation
+	// extension draws from a generator of its own, so that the older streams keep their inputs per seed
+	rg := gen.NewRand(c.Seed*0x9E3779B97F4A7C15 + 0xC02)
+	// (1b) the same function on the axes it reads besides the shape: use_get_http_method under every
+	// stream type, the permutation's codec (also unspecified / the deprecated text codec: "anything
+	// but json is proto"), service and method given, IdempotentUnary, Unimplemented (no response
+	// definition: rejected unless the suite gives the expected response), explicit expected
+	// responses (must come back untouched)
+	nGet := 400
+	if c.Thorough() {
+		nGet = 8000
+	}
+	for i := 0; i < nGet; i++ {
+		st := gen.Pick(rg, c02Sts)
+		tc := c02GenTC(rg, st, rg.Intn(4), rg.Intn(4), rg.Chance(2, 5), true)
+		tc.Name = "x"
+		tc.Get, tc.Codec = rg.Chance(2, 3), rg.Intn(4)
+		switch rg.Intn(7) {
+		case 0:
+			tc.Method = "explicit"
+		case 1, 2:
+			if st == "unary" || st == "clientStream" {
+				tc.Method = "idempotent"
+			}
+		case 3:
+			tc.Method, tc.HasDef, tc.LaterDefs = "unimplemented", false, nil
+		}
+		if rg.Chance(1, 5) {
+			if tc.Def.Err == nil && tc.Def.Kind != "error" && tc.Method != "unimplemented" {
+				tc.Explicit = c02WeakExplicit(tc, rg.Chance(1, 3))
+				if tc.Get && rg.Bool() && len(tc.Explicit.Payloads) > 0 && tc.Explicit.Payloads[0].Info != nil {
+					tc.Explicit.Payloads[0].Info.Query = []c02Hdr{{N: "encoding", V: []string{"json"}}, {N: "x", V: []string{}}}
+				}
+			} else {
+				id := rg.Intn(9)
+				tc.Explicit = &c02Result{Hdrs: c02GenHdrs(rg, "x-e", false), Trls: []c02Hdr{}, Payloads: []c02Payload{},
+					Err: &c02ErrOut{Code: rg.Range(1, 16), Details: []c02Detail{{Other: &id}, {Info: &c02Info{Hdrs: []c02Hdr{}, Reqs: []int{7}, Query: []c02Hdr{}}}}}}
+			}
+		}
+		c.Do("expected", tc)
+		c.E.Count("expected-axes:" + map[bool]string{true: "get", false: "post"}[tc.Get] + ":" + tc.Method)
+	}
+	// (1c) the same through the library (parseTestSuites, expandCases, populateExpectedResponses):
+	// derived and explicit expectations side by side in one suite, plus the GET suite — what every
+	// permutation ends up with must be what the model says for that permutation's codec
+	nLib := 6
+	if c.Thorough() {
+		nLib = 60
+	}
+	for k := 0; k < nLib; k++ {
+		in := c02LibIn{Mode: gen.Pick(rg, []string{"client", "server", "both"}), Versions: []int{1, 2}, Protos: []int{1, 2, 3}, Codecs: []int{1, 2}, Comps: []int{1, 2}}
+		for i := 0; i < 10; i++ {
+			in.Cases = append(in.Cases, c02Decorate(rg, c02RandomTC(rg, true, 0)))
+		}
+		in.Cases = append(in.Cases, c02Unimplemented(rg, rg.Chance(1, 3)))
+		for i := 0; i < 6; i++ {
+			in.GetCases = append(in.GetCases, c02GenGetTC(rg, true, true))
+		}
+		if rg.Bool() {
+			in.GetComps = []int{1}
+		}
+		if k%3 == 2 {
+			// one case nothing can be derived for: the whole load must fail
+			bad := c02Unimplemented(rg, false)
+			bad.Explicit = nil
+			if rg.Bool() {
+				in.Cases = append(in.Cases, bad)
+			} else {
+				in.GetCases = append(in.GetCases, bad)
+			}
+		}
+		c.Do("libexpected", in)
+	}
 	// (2) loading parseable but odd suites never crashes
 	for _, in := range c02LoadCases(r) {
 		c.Do("load", in)
+	}
+	// (2b) ... and is rejected exactly when the model of the validation says so: suites described by
+	// shape, one departure (or two) from a loadable input per validation branch
+	for _, in := range c02LoadShapes(rg, c.Thorough()) {
+		c.Do("load", in)
+		c.E.Count("load-shape:" + in.Note)
+	}
+	// (2c) populateExpectedResponse called directly: stream types by number (unspecified, unknown) and
+	// request messages that no suite file can express (unregistered type, bytes that are no message)
+	for st := 0; st <= 7; st++ {
+		for _, kinds := range [][]string{{}, {"unary"}, {"idempotent"}, {"clientStream"}, {"serverStream"}, {"bidi"}, {"unimplemented"}, {"other"},
+			{"unknown"}, {"garbage"}, {"unary", "garbage"}, {"bidi", "unknown"}, {"garbage", "unary"}} {
+			for _, ex := range []bool{false, true} {
+				c.Do("populate", c02PopIn{St: st, Msgs: kinds, Explicit: ex})
+			}
+		}
 	}
 	// (3) end to end through the real Run
 	nRuns, perRun := 14, 12
@@ -821,7 +1413,8 @@ func runC02(c *gen.Ctx) error {
 			in.Mode = map[int]string{5: "grpcserver", 6: "grpcclient"}[k%7]
 			in.Versions, in.Protos, in.Codecs, in.Comps = []int{2}, []int{2}, []int{1}, []int{1, 2}
 		}
-		if c.Thorough() && k%5 == 4 {
+		if c.Thorough() && k%5 == 4 && in.Mode != "grpcserver" && in.Mode != "grpcclient" {
+			// (the stand-alone gRPC peers link identity and gzip only: testing/grpc-impls-config.yaml)
 			in.Comps = allComps
 		}
 		// every third run with the runner's --trace (k = 1 client, 4 client, 7 both, 10 server, 13 grpcclient ...)
@@ -838,11 +1431,34 @@ func runC02(c *gen.Ctx) error {
 				minReq = 1
 			}
 			for i := 0; i < perRun; i++ {
-				in.Cases = append(in.Cases, c02RandomTC(r, true, minReq))
+				in.Cases = append(in.Cases, c02Decorate(rg, c02RandomTC(r, true, minReq)))
 			}
+			// the unimplemented method (every peer, the gRPC ones too), now and then with a wrong expectation
+			in.Cases = append(in.Cases, c02Unimplemented(rg, k%5 == 3))
 			if in.Mode != "client" && in.Mode != "grpcclient" && k < 8 {
 				// the empty request stream of every stream type, always
 				in.Cases = append(in.Cases, c02GenTC(r, "clientStream", 0, 0, false, false), c02GenTC(r, "halfDuplex", 0, 0, false, false), c02GenTC(r, "fullDuplex", 0, 0, false, false))
+			}
+		}
+		// suite VG next to suite V in the runs whose peers speak Connect: GET against the
+		// reference-mode reference server only without compression (known finding F31, below)
+		if in.Mode == "client" || in.Mode == "server" || in.Mode == "both" {
+			nGetCases := 5
+			if k == 0 {
+				nGetCases = 8
+			}
+			for i := 0; i < nGetCases; i++ {
+				in.GetCases = append(in.GetCases, c02GenGetTC(rg, true, in.Mode == "server"))
+			}
+			if in.Mode != "server" {
+				in.GetComps = []int{1}
+			} else {
+				// always: use_get_http_method on the plain Unary method (POSTed: nothing to compare the
+				// expected query parameters with)
+				tc := c02GenTC(rg, "unary", 1, rg.Intn(2), rg.Chance(2, 5), true)
+				tc.LaterDefs = nil
+				tc.Get = true
+				in.GetCases = append(in.GetCases, tc)
 			}
 		}
 		ins = append(ins, in)
@@ -865,10 +1481,257 @@ func runC02(c *gen.Ctx) error {
 	for _, st := range []string{"clientStream", "halfDuplex", "fullDuplex"} {
 		f27.Cases = append(f27.Cases, c02GenTC(r, st, 0, 0, false, false))
 	}
-	ins = append(ins, f07, f27)
-	opsOf = append(opsOf, "e2e-f07", "e2e-f27")
+	// known finding F31: a GET call is never compressed by the reference client (connect-go compresses
+	// a GET only to make an over-long URL fit), while the reference server in reference mode insists on
+	// the permutation's compression: only that symptom may appear, and only on the GET calls
+	f31 := c02E2EIn{Mode: gen.Pick(rg, []string{"client", "both"}), Versions: []int{1, 2}, Protos: []int{1}, Codecs: []int{1, 2}, Comps: []int{1, allComps[1+rg.Intn(5)]}, NoRerun: true}
+	for i := 0; i < 3; i++ {
+		tc := c02GenTC(rg, "unary", 1, rg.Intn(2), rg.Chance(2, 5), false)
+		tc.LaterDefs = nil
+		tc.Method, tc.Get = "idempotent", true
+		f31.GetCases = append(f31.GetCases, tc)
+	}
+	post := c02GenTC(rg, "unary", 1, 1, false, false)
+	post.LaterDefs = nil
+	f31.GetCases = append(f31.GetCases, post)
+	ins = append(ins, f07, f27, f31)
+	opsOf = append(opsOf, "e2e-f07", "e2e-f27", "e2e-f31")
 	c.DoParallelOps(opsOf, ins, 4)
 	return nil
+}
+
+// ---- generator of suite shapes for the load op ----
+
+var c02LKinds = []string{"unary", "idempotent", "clientStream", "serverStream", "bidi", "unimplemented", "other"}
+
+// a case the loader accepts: the message kind of its stream type, no directives
+func c02LGoodCase(r *gen.Rand, name string) c02LCase {
+	st := r.Range(1, 5)
+	kind := map[int]string{1: "unary", 2: "clientStream", 3: "serverStream", 4: "bidi", 5: "bidi"}[st]
+	c := c02LCase{Name: name, St: st, Msgs: []string{}, Expand: []string{}}
+	n := 1
+	if st == 2 || st >= 4 {
+		n = r.Intn(3)
+	}
+	for i := 0; i < n; i++ {
+		c.Msgs = append(c.Msgs, kind)
+	}
+	if r.Chance(1, 4) {
+		c.Service, c.Method = true, true
+	}
+	return c
+}
+
+// runMode: the mode of the run (0, 1 client, 2 server): the suite is for every mode or for that one
+func c02LGoodSuite(r *gen.Rand, name string, runMode int) c02LSuite {
+	s := c02LSuite{Name: name, Mode: gen.Pick(r, []int{0, 0, runMode}), Protos: gen.Pick(r, [][]int{{}, {}, {2, 1}, {3}}),
+		Codecs: gen.Pick(r, [][]int{{}, {}, {1}, {2}, {1, 2}})}
+	for i := r.Range(1, 3); i > 0; i-- {
+		s.Cases = append(s.Cases, c02LGoodCase(r, fmt.Sprintf("c%d", i)))
+	}
+	return s
+}
+
+// the single departures from a loadable input, one per validation branch of parseTestSuites /
+// expandRequestData / newTestCaseLibrary / expandSuite / expandCases / populateExpectedResponse
+var c02LDefects = []struct {
+	name  string
+	apply func(r *gen.Rand, ss []c02LSuite) []c02LSuite
+}{
+	{"none", func(r *gen.Rand, ss []c02LSuite) []c02LSuite { return ss }},
+	{"stream-type-unspecified", func(r *gen.Rand, ss []c02LSuite) []c02LSuite { ss[0].Cases[0].St = 0; return ss }},
+	{"stream-type-unknown", func(r *gen.Rand, ss []c02LSuite) []c02LSuite { ss[0].Cases[0].St = gen.Pick(r, []int{6, 7, 99}); return ss }},
+	{"all-stream-types-unknown", func(r *gen.Rand, ss []c02LSuite) []c02LSuite {
+		for i := range ss {
+			for j := range ss[i].Cases {
+				ss[i].Cases[j].St = 6 + j
+			}
+		}
+		return ss
+	}},
+	{"case-no-name", func(r *gen.Rand, ss []c02LSuite) []c02LSuite { ss[0].Cases[len(ss[0].Cases)-1].Name = ""; return ss }},
+	{"service-without-method", func(r *gen.Rand, ss []c02LSuite) []c02LSuite {
+		ss[0].Cases[0].Service, ss[0].Cases[0].Method = true, false
+		return ss
+	}},
+	{"method-without-service", func(r *gen.Rand, ss []c02LSuite) []c02LSuite {
+		ss[0].Cases[0].Service, ss[0].Cases[0].Method = false, true
+		return ss
+	}},
+	{"duplicate-case-name", func(r *gen.Rand, ss []c02LSuite) []c02LSuite {
+		c := c02LGoodCase(r, ss[0].Cases[0].Name) // possibly of another stream type: the name alone counts
+		ss[0].Cases = append(ss[0].Cases, c)
+		return ss
+	}},
+	{"duplicate-name-not-runnable", func(r *gen.Rand, ss []c02LSuite) []c02LSuite {
+		c := c02LGoodCase(r, ss[0].Cases[0].Name)
+		c.St = 9 // never expanded: no clash
+		ss[0].Cases = append(ss[0].Cases, c)
+		return ss
+	}},
+	{"message-of-other-family", func(r *gen.Rand, ss []c02LSuite) []c02LSuite {
+		c := &ss[0].Cases[0]
+		if c.St <= 2 {
+			c.Msgs = []string{gen.Pick(r, []string{"serverStream", "bidi"})}
+		} else {
+			c.Msgs = []string{gen.Pick(r, []string{"unary", "idempotent", "clientStream"})}
+		}
+		return ss
+	}},
+	{"message-of-same-family-other-method", func(r *gen.Rand, ss []c02LSuite) []c02LSuite {
+		c := &ss[0].Cases[0] // accepted: only the family of the first message is looked at
+		if c.St <= 2 {
+			c.Msgs = []string{gen.Pick(r, []string{"unary", "idempotent", "clientStream"})}
+		} else {
+			c.Msgs = []string{gen.Pick(r, []string{"serverStream", "bidi"})}
+		}
+		return ss
+	}},
+	{"unimplemented-request", func(r *gen.Rand, ss []c02LSuite) []c02LSuite { ss[0].Cases[0].Msgs = []string{"unimplemented"}; return ss }},
+	{"non-request-message", func(r *gen.Rand, ss []c02LSuite) []c02LSuite { ss[0].Cases[0].Msgs = []string{"other"}; return ss }},
+	{"later-message-odd", func(r *gen.Rand, ss []c02LSuite) []c02LSuite {
+		c := &ss[0].Cases[0] // accepted: later messages are not looked at
+		if len(c.Msgs) == 0 {
+			c.Msgs = []string{map[bool]string{true: "unary", false: "bidi"}[c.St <= 2]}
+		}
+		c.Msgs = append(c.Msgs, gen.Pick(r, []string{"other", "unimplemented", "unary", "bidi"}))
+		return ss
+	}},
+	{"explicit-covers-odd-message", func(r *gen.Rand, ss []c02LSuite) []c02LSuite {
+		ss[0].Cases[0].Msgs, ss[0].Cases[0].Explicit = []string{gen.Pick(r, []string{"other", "unimplemented"})}, true
+		return ss
+	}},
+	{"raw-request", func(r *gen.Rand, ss []c02LSuite) []c02LSuite { ss[0].Cases[0].RawRequest = true; return ss }},
+	{"raw-request-server-suite", func(r *gen.Rand, ss []c02LSuite) []c02LSuite {
+		ss[0].Cases[0].RawRequest, ss[0].Mode = true, 2
+		return ss
+	}},
+	{"raw-response", func(r *gen.Rand, ss []c02LSuite) []c02LSuite {
+		c := &ss[0].Cases[0]
+		if len(c.Msgs) == 0 {
+			c.Msgs = []string{map[bool]string{true: "clientStream", false: "bidi"}[c.St <= 2]}
+		}
+		c.RawResponse, c.Explicit = true, r.Bool()
+		return ss
+	}},
+	{"raw-response-client-suite", func(r *gen.Rand, ss []c02LSuite) []c02LSuite {
+		c := &ss[0].Cases[0]
+		if len(c.Msgs) == 0 {
+			c.Msgs = []string{map[bool]string{true: "clientStream", false: "bidi"}[c.St <= 2]}
+		}
+		c.RawResponse, c.Explicit, ss[0].Mode = true, r.Chance(2, 3), 1
+		return ss
+	}},
+	{"raw-response-flag-without-definer", func(r *gen.Rand, ss []c02LSuite) []c02LSuite {
+		ss[0].Cases[0].Msgs, ss[0].Cases[0].RawResponse, ss[0].Cases[0].Explicit = []string{"other"}, true, true
+		return ss
+	}},
+	{"expand", func(r *gen.Rand, ss []c02LSuite) []c02LSuite {
+		c := &ss[0].Cases[0]
+		if len(c.Msgs) == 0 {
+			c.Msgs = []string{map[bool]string{true: "clientStream", false: "bidi"}[c.St <= 2]}
+		}
+		ss[0].Codecs = gen.Pick(r, [][]int{{1}, {1}, {}, {2}, {1, 2}, {2, 1}, {1, 1}})
+		n := r.Range(1, len(c.Msgs)+1)
+		for i := 0; i < n; i++ {
+			c.Expand = append(c.Expand, gen.Pick(r, []string{"absent", "fits", "fits", "misfit"}))
+		}
+		return ss
+	}},
+	{"expand-more-than-messages", func(r *gen.Rand, ss []c02LSuite) []c02LSuite {
+		c := &ss[0].Cases[0]
+		ss[0].Codecs = []int{1}
+		for i := 0; i <= len(c.Msgs); i++ {
+			c.Expand = append(c.Expand, gen.Pick(r, []string{"absent", "fits"}))
+		}
+		return ss
+	}},
+	{"expand-on-message-without-data", func(r *gen.Rand, ss []c02LSuite) []c02LSuite {
+		c := &ss[0].Cases[0]
+		c.Msgs, c.Explicit = []string{gen.Pick(r, []string{"other", "unimplemented"})}, true
+		ss[0].Codecs = []int{1}
+		c.Expand = []string{gen.Pick(r, []string{"absent", "fits", "misfit"})}
+		return ss
+	}},
+	{"suite-no-name", func(r *gen.Rand, ss []c02LSuite) []c02LSuite { ss[len(ss)-1].Name = ""; return ss }},
+	{"suite-no-cases", func(r *gen.Rand, ss []c02LSuite) []c02LSuite { ss[len(ss)-1].Cases = nil; return ss }},
+	{"duplicate-suite-name", func(r *gen.Rand, ss []c02LSuite) []c02LSuite {
+		d := c02LGoodSuite(r, ss[0].Name, r.Intn(3)) // a second file: also when it is for another mode
+		return append(ss, d)
+	}},
+	{"duplicate-suite-name-client-only", func(r *gen.Rand, ss []c02LSuite) []c02LSuite {
+		d := c02LGoodSuite(r, ss[0].Name, 1) // skipped unless the run is in client mode: still a duplicate
+		d.Mode = 1
+		return append(ss, d)
+	}},
+	{"duplicate-suite-name-server-only", func(r *gen.Rand, ss []c02LSuite) []c02LSuite {
+		d := c02LGoodSuite(r, ss[0].Name, 2)
+		d.Mode = 2
+		return append(ss, d)
+	}},
+	{"other-mode-only", func(r *gen.Rand, ss []c02LSuite) []c02LSuite {
+		for i := range ss {
+			ss[i].Mode = 1 + r.Intn(2) // against mode unspecified / the other one: "no test cases apply"
+		}
+		return ss
+	}},
+	{"certs-without-tls", func(r *gen.Rand, ss []c02LSuite) []c02LSuite { ss[0].Certs = true; return ss }},
+	{"tls", func(r *gen.Rand, ss []c02LSuite) []c02LSuite { ss[0].Tls, ss[0].Certs = true, r.Bool(); return ss }},
+	{"get", func(r *gen.Rand, ss []c02LSuite) []c02LSuite {
+		ss[0].Get = true
+		if r.Chance(2, 3) {
+			ss[0].Protos = []int{1}
+		}
+		return ss
+	}},
+	{"get-with-connect-among-others", func(r *gen.Rand, ss []c02LSuite) []c02LSuite {
+		ss[0].Get, ss[0].Protos = true, gen.Pick(r, [][]int{{1, 2}, {3, 1}, {}, {2}})
+		return ss
+	}},
+	{"connect-version-mode", func(r *gen.Rand, ss []c02LSuite) []c02LSuite {
+		ss[0].Cvm = 1 + r.Intn(2)
+		if r.Bool() {
+			ss[0].Protos = []int{1}
+		}
+		return ss
+	}},
+	{"codecs-not-configured", func(r *gen.Rand, ss []c02LSuite) []c02LSuite { ss[0].Codecs = []int{3}; return ss }},
+}
+
+func c02LoadShapes(r *gen.Rand, thorough bool) []c02LoadIn {
+	var out []c02LoadIn
+	base := func(runMode int) []c02LSuite {
+		ss := []c02LSuite{c02LGoodSuite(r, "A", runMode)}
+		if r.Chance(1, 3) {
+			ss = append(ss, c02LGoodSuite(r, "B", r.Intn(3)))
+		}
+		return ss
+	}
+	modes := []string{"", "client", "server"}
+	reps := 3
+	if thorough {
+		reps = 40
+	}
+	// every single defect, under every run mode
+	for _, d := range c02LDefects {
+		for k := 0; k < reps; k++ {
+			out = append(out, c02LoadIn{Mode: modes[k%3], Note: d.name, Shapes: d.apply(r, base(k%3))})
+		}
+	}
+	// pairs of defects (which error wins is not determined; that it is one is)
+	n := 60
+	if thorough {
+		n = 3000
+	}
+	for k := 0; k < n; k++ {
+		d1, d2 := gen.Pick(r, c02LDefects), gen.Pick(r, c02LDefects)
+		if d1.name == "suite-no-cases" {
+			d1, d2 = d2, d1 // the others look at the first case
+		}
+		m := r.Intn(3)
+		out = append(out, c02LoadIn{Mode: modes[m], Note: d1.name + "+" + d2.name, Shapes: d2.apply(r, d1.apply(r, base(m)))})
+	}
+	return out
 }
 
 // suites that parse but have shapes the expansion cannot handle, or sit at its edges
@@ -910,6 +1773,8 @@ func c02LoadCases(r *gen.Rand) []c02LoadIn {
 			a, _ := anypb.New(&conformancev1.Header{Name: "x"})
 			s.TestCases[0].Request.RequestMessages = []*anypb.Any{a}
 		}),
+		// (these two end up as an EMPTY file: JSON cannot render such an Any — protojson.Marshal fails;
+		// the messages themselves go through populateExpectedResponse in op populate)
 		mk("unknown any type", func(s *conformancev1.TestSuite) {
 			s.TestCases[0].Request.RequestMessages = []*anypb.Any{{TypeUrl: "type.googleapis.com/nope.Nope", Value: []byte{1, 2}}}
 		}),
